@@ -193,25 +193,33 @@ Definition pa_parse (t : list N) : option (list field * list (N * perr)) :=
   end.
 
 (* ---------------------------------------------------------------- _str_format_impl *)
-Inductive ferr := FTooFew | FOutOfRange | FNotGiven | FUnusedNumbered | FUnusedNamed.
+Inductive ferr := FTooFew | FOutOfRange | FNotGiven | FUnusedNumbered | FUnusedNamed | FMix.
+
+(* numbering mode: auto_numbering None / True / False in the code, AutoNumber
+   (ANS_INIT / ANS_AUTO / ANS_MANUAL) in CPython *)
+Inductive anstate := AInit | AAuto | AManual.
 
 Definition name_in (s : list N) (l : list (list N)) : bool := existsb (list_eqb s) l.
 
-(* the loop over parsed.iter_replacement_fields(): (errors, used indices, used names) *)
-Fixpoint pa_field_loop (fields : list field) (nargs : N) (kw : list (list N)) (cur : N)
+(* the loop over parsed.iter_replacement_fields(): (errors, used indices, used names).
+   A switch between automatic and manual numbering is reported and the loop goes
+   on in the new mode. *)
+Fixpoint pa_field_loop (fields : list field) (nargs : N) (kw : list (list N)) (st : anstate) (cur : N)
   : list ferr * list N * list (list N) :=
   match fields with
   | [] => ([], [], [])
   | fd :: fs =>
       match f_name fd with
       | ANone =>
-          let '(e, ui, uk) := pa_field_loop fs nargs kw (cur + 1) in
-          ((if nargs <=? cur then [FTooFew] else []) ++ e, cur :: ui, uk)
+          let '(e, ui, uk) := pa_field_loop fs nargs kw AAuto (cur + 1) in
+          ((match st with AManual => [FMix] | _ => [] end)
+             ++ (if nargs <=? cur then [FTooFew] else []) ++ e, cur :: ui, uk)
       | ANum i =>
-          let '(e, ui, uk) := pa_field_loop fs nargs kw cur in
-          ((if nargs <=? i then [FOutOfRange] else []) ++ e, i :: ui, uk)
+          let '(e, ui, uk) := pa_field_loop fs nargs kw AManual cur in
+          ((match st with AAuto => [FMix] | _ => [] end)
+             ++ (if nargs <=? i then [FOutOfRange] else []) ++ e, i :: ui, uk)
       | AName s =>
-          let '(e, ui, uk) := pa_field_loop fs nargs kw cur in
+          let '(e, ui, uk) := pa_field_loop fs nargs kw st cur in
           ((if name_in s kw then [] else [FNotGiven]) ++ e, ui, s :: uk)
       end
   end.
@@ -220,7 +228,7 @@ Fixpoint range_N (n : nat) : list N :=
   match n with O => [] | S m => range_N m ++ [N.of_nat m] end.
 
 Definition pa_fields_check (fields : list field) (nargs : N) (kw : list (list N)) : list ferr :=
-  let '(e, ui, uk) := pa_field_loop fields nargs kw 0 in
+  let '(e, ui, uk) := pa_field_loop fields nargs kw AInit 0 in
   e ++ (if forallb (fun i => mem i ui) (range_N (N.to_nat nargs)) then [] else [FUnusedNumbered])
     ++ (if forallb (fun s => name_in s uk) kw then [] else [FUnusedNamed]).
 
@@ -241,8 +249,6 @@ Definition is_unused (e : ferr) : bool :=
   match e with FUnusedNumbered | FUnusedNamed => true | _ => false end.
 
 (* ================================================================ CPython *)
-(* AutoNumber: 0 = ANS_INIT, 1 = ANS_AUTO, 2 = ANS_MANUAL *)
-Inductive anstate := AInit | AAuto | AManual.
 
 (* automatic/manual numbering + lookup in args / kwargs, field by field; true = raises *)
 Fixpoint py_fields_raise (fields : list field) (nargs : N) (kw : list (list N)) (st : anstate) (cur : N) : bool :=
